@@ -30,7 +30,8 @@ def matrix(rng, kind, n):
     n = max(1, n)
     if kind == "chain":            # bidiagonal: long pipelines
         for j in range(n):
-            ent[(j, j)] = val(rng) + (5 if rng.random() < 0.5 else 0)
+            v = val(rng)
+            ent[(j, j)] = v + (5 if v > 0 else -5) * (1 if rng.random() < 0.5 else 0)
             if j + 1 < n:
                 ent[(j + 1, j)] = val(rng)
             if j > 0 and rng.random() < 0.3:
@@ -154,3 +155,41 @@ def dense_of(A):
         for p in range(A["colptr"][j], A["colptr"][j + 1]):
             M[A["rowind"][p]][j] = A["vals"][p]
     return M
+
+
+def exactly_singular(n, ent):
+    """exact rank test (fractions) of the matrix given as dict (i,j)->value (float or complex)"""
+    from fractions import Fraction
+    def fr(v):
+        return (Fraction(v.real), Fraction(v.imag)) if isinstance(v, complex) else (Fraction(v), Fraction(0))
+    rows = [dict() for _ in range(n)]
+    for (i, j), v in ent.items():
+        if v != 0:
+            rows[i][j] = fr(v)
+    def cmul(a, b): return (a[0]*b[0]-a[1]*b[1], a[0]*b[1]+a[1]*b[0])
+    def cdiv(a, b):
+        d = b[0]*b[0]+b[1]*b[1]
+        return ((a[0]*b[0]+a[1]*b[1])/d, (a[1]*b[0]-a[0]*b[1])/d)
+    used = [False]*n
+    for col in range(n):
+        piv = None
+        for i in range(n):
+            if not used[i] and col in rows[i] and rows[i][col] != (0, 0):
+                piv = i; break
+        if piv is None:
+            return True
+        used[piv] = True
+        pv = rows[piv][col]
+        for i in range(n):
+            if i != piv and not used[i] and col in rows[i] and rows[i][col] != (0, 0):
+                f = cdiv(rows[i][col], pv)
+                for j, v in rows[piv].items():
+                    t = cmul(f, v)
+                    o = rows[i].get(j, (Fraction(0), Fraction(0)))
+                    nv = (o[0]-t[0], o[1]-t[1])
+                    if nv == (0, 0):
+                        rows[i].pop(j, None)
+                    else:
+                        rows[i][j] = nv
+                rows[i].pop(col, None)
+    return False
